@@ -105,7 +105,10 @@ def refpoint(matrix, objectives, weights):
     reference_point = np.where(mask, rpmax, rpmin)
 
     # create rank matrix
-    rank_mtx = np.max(np.abs(weights * (matrix - reference_point)), axis=1)
+    # (the differences are taken in double precision: in the dtype of a matrix
+    # of unsigned or narrow integers they would wrap around)
+    deviation = np.subtract(matrix, reference_point, dtype=float)
+    rank_mtx = np.max(np.abs(weights * deviation), axis=1)
     score = np.squeeze(np.asarray(rank_mtx))
     return rank.rank_values(score), score, reference_point
 
